@@ -691,7 +691,11 @@ class _MissingImportFinder:
 
             # we only care about the first defined class,
             # we don't detect issues with nested classes.
-            if self._in_class_def == 0:
+            at_module_level = (self._in_class_def == 0
+                               and not self._in_FunctionDef)
+            if at_module_level:
+                # (A class defined inside a function is stored in that
+                # function's own scope; it is not visible to other functions.)
                 self.scopestack._class_delayed[node.name] = None
             with self._NewScopeCtx(new_class_scope=True):
                 self._in_class_def += 1
@@ -699,7 +703,10 @@ class _MissingImportFinder:
                 self.visit(node.body)
                 self._in_class_def -= 1
             assert self._in_class_def >= 0
-        self._remove_from_missing_imports(node.name)
+        if at_module_level:
+            # (A nested or function-local class of the same name does not
+            # provide a name that is missing at module level.)
+            self._remove_from_missing_imports(node.name)
         self._visit_Store(node.name)
 
     def _visit_type_params(self, type_params):
